@@ -11,6 +11,7 @@ import FordModel.AccessNames
 import FordModel.Lemmas.AccessNames
 import FordModel.AccessImpl
 import FordModel.Lemmas.AccessImpl
+import FordModel.AccessPage
 namespace Ford.C04
 open Ford Ford.Access
 
@@ -789,6 +790,236 @@ example :
 /-- the measured truth table of `correlate`'s metadata step: neither form of implementation takes the accessibility
     of its interface -/
 theorem implementation_tables_sound : implShortTakesIface = false ∧ implLongTakesIface = false := by
+  decide
+
+/-! ### round 6 - the body of a separate module procedure in the module of its own interface -/
+
+/-- **One entity, one accessibility (long form).**  The body of a separate module procedure may stand in the
+    module that declares its interface body; FORD then keeps two objects for the one entity: the interface entry
+    (`interface ... module subroutine n ... end interface`, in `interfaces`) and the procedure `module subroutine n`
+    / `module function n` (in `subroutines` / `functions`).  With the deletion order of the code as it is
+    (`afterLoop`: an `attr_dict` entry outlives the first entity of its name), for **every** module
+    `pre ++ [body of n] ++ post` whose specification part declares `n` in a plain interface block and whose
+    access statements give `n` exactly one access word `q` - wherever the statement stands, whatever the module
+    default is, whatever else is declared -: when `process_attribs` returns, the body and the interface entry both
+    report `q`, and `q` is what Fortran says (`fortranAccess`).  A guard that keeps the attribute statements away
+    from procedures with the MODULE prefix contradicts this theorem (and changes the measured `sepBodyTrans`). -/
+theorem own_module_body_access_statement (early spec : Bool) (stmts : List Stmt) (n : Str) (f : Bool)
+    (nm : Str) (ps rs : List Str) (q : Perm) (pre post : List Stmt)
+    (hS : stmts = pre ++ .proc f n :: post) (hc : Stmt.contains ∈ pre)
+    (hI : Stmt.iface .plain nm ps rs ∈ stmts) (hn : n ∈ ps)
+    (hstmt : (entriesFor n (stmtEntries stmts)).filterMap accessWord = [q])
+    (hprot : Attr.acc .prot ∉ entriesFor n (stmtEntries stmts)) :
+    (∃ b ∈ (runUnit ⟨.afterLoop, early, spec⟩ false stmts).attr, ∃ i ∈ (runUnit ⟨.afterLoop, early, spec⟩ false stmts).attr,
+      b.cat = (if f then .func else .sub) ∧ b.name = n ∧ i.cat = .iface ∧ i.wrapper = true ∧ i.name = n ∧
+      b.perm = q ∧ i.perm = q) ∧ fortranAccess stmts [] n = q := by
+  refine ⟨?_, fortranAccess_one stmts n q hstmt hprot⟩
+  obtain ⟨pg, ig, hGm⟩ := mem_entsFrom stmts (init false).perm false _ hI
+  obtain ⟨g0, hg0, hgc, hgw, hgn⟩ : ∃ e0 ∈ mkEnts pg pg ig (.iface .plain nm ps rs),
+      e0.cat = .iface ∧ e0.wrapper = true ∧ e0.name = n :=
+    ⟨_, List.mem_map.2 ⟨n, hn, rfl⟩, rfl, rfl, rfl⟩
+  have hinc : (false || hasContains pre) = true := by simpa [hasContains] using hc
+  obtain ⟨t0, ht0, htc, htn, _⟩ := mkEnts_declares (lastBare (init false).perm pre) (false || hasContains pre) (.proc f n)
+    (fun _ => hinc) ((if f then .func else .sub), n, []) (by simp [declares])
+  simp only at htc htn
+  have ht0' : t0 ∈ entsFrom (init false).perm false stmts := by
+    rw [hS, entsFrom_append]
+    exact List.mem_append_right _ (mkEnts_sub_entsFrom _ _ _ post t0 ht0)
+  obtain ⟨ht1, ht2⟩ := afterLoop_same_name early spec false stmts n q hstmt hprot t0 ht0'
+    (by rw [htc]; cases f <;> decide) htn
+  obtain ⟨hg1, hg2⟩ := afterLoop_same_name early spec false stmts n q hstmt hprot g0 (hGm _ hg0) (by rw [hgc]; decide) hgn
+  refine ⟨_, ht1, _, hg1, by simpa using htc, by simpa using htn, by simpa using hgc, ?_, by simpa using hgn, ht2, hg2⟩
+  cases spec <;> simpa [upd, specUpd] using hgw
+
+/-- worked instance (non-vacuity): default-private module, `public :: solve`, interface bodies `solve` and `setup`,
+    both bodies in the module: `solve` public on both objects, `setup` private on both, and the module hands
+    exactly `solve` to its users -/
+example :
+    (let o := runUnit ⟨.afterLoop, true, true⟩ false
+        [.bare .priv, .access (.acc .pub) [chars! "solve"], .iface .plain [] [chars! "solve", chars! "setup"] [],
+         .contains, .proc false (chars! "solve"), .proc false (chars! "setup")]
+     (o.ents.map (fun e => (e.cat, e.name, e.perm)), o.exports))
+    = ([(.iface, chars! "solve", .pub), (.iface, chars! "setup", .priv), (.sub, chars! "solve", .pub),
+        (.sub, chars! "setup", .priv)], [(.procs, chars! "solve")]) := by
+  decide
+
+/-- **Why the deletion order matters here (code before the constructor repair).**  With `perEntity` the procedure -
+    first in `process_attribs`' order - takes the statement and deletes it: the interface entry of the same entity
+    keeps the module default, and, being the later entry of `all_procs`, keeps the public procedure out of
+    `pub_procs`.  With `afterLoop` both are public and the procedure is exported.  Fortran: public. -/
+theorem own_module_body_deletion_order_witness :
+    let prog : List Stmt := [.bare .priv, .access (.acc .pub) [chars! "f"], .iface .plain [] [chars! "f"] [],
+      .contains, .proc false (chars! "f")]
+    ((runUnit asIs false prog).ents.map (fun e => (e.cat, e.perm)) = [(.iface, .priv), (.sub, .pub)]) ∧
+    (runUnit asIs false prog).exports = [] ∧
+    ((runUnit ⟨.afterLoop, false, false⟩ false prog).ents.map (fun e => (e.cat, e.perm)) = [(.iface, .pub), (.sub, .pub)]) ∧
+    (runUnit ⟨.afterLoop, false, false⟩ false prog).exports = [(.procs, chars! "f")] ∧
+    fortranAccess prog [] (chars! "f") = .pub := by
+  decide
+
+/-- **Known defect (short-form body in the module of its interface).**  `private` / `public :: f` /
+    `interface; module subroutine f` / `contains` / `module procedure f`: the body (`modprocedures`, a list
+    `process_attribs` never walks) keeps the module default `private` although the entity is public, while the
+    interface entry is public; the other way round for `private :: f` in a default-public module.  With the
+    candidate repair (`implAttr`, fixes/C04-own-module-short-body.diff) the body takes the statement's word. -/
+theorem own_module_short_body_witness (v : Variant) (g : Bool) :
+    let prog (d w : Perm) : List XStmt :=
+      [.stmt (.plain (.bare d)), .stmt (.plain (.access (.acc w) [chars! "f"])),
+       .stmt (.plain (.iface .plain [] [chars! "f"] [])), .stmt (.plain .contains), .impl (chars! "f")]
+    (runXI v g false false [] (prog .priv .pub)).impls = [⟨chars! "f", .priv⟩] ∧
+    (runXI v g false false [] (prog .pub .priv)).impls = [⟨chars! "f", .pub⟩] ∧
+    (runXI v g false true [] (prog .priv .pub)).impls = [⟨chars! "f", .pub⟩] ∧
+    (runXI v g false true [] (prog .pub .priv)).impls = [⟨chars! "f", .priv⟩] ∧
+    ((runXI v g false false [] (prog .priv .pub)).out.ents.map (fun e => (e.cat, e.perm)) = [(.iface, .pub)]) ∧
+    fortranAccess [.bare .priv, .access (.acc .pub) [chars! "f"], .iface .plain [] [chars! "f"] [], .contains] []
+      (chars! "f") = .pub := by
+  obtain ⟨d, e, sp⟩ := v
+  cases d <;> cases e <;> cases sp <;> cases g <;> decide
+
+/-- **Short-form body, repaired.**  With the loop over `modprocedures` (`implAttr`), for every module (any variant,
+    any host, any other statements, the body anywhere in the procedure part): a short-form body `n` whose name the
+    attribute statements of the module give exactly one access word `q` reports `q` after `correlate` - the
+    accessibility of the entity, the same as its interface entry by `own_module_body_access_statement`'s argument.
+    Rests on the measured `implShortTakesIface = false` (correlate leaves the permission alone). -/
+theorem own_module_short_body_repaired (v : Variant) (g : Bool) (host : List (Str × Perm)) (xs : List XStmt)
+    (n : Str) (q : Perm) (hi : XStmt.impl n ∈ xs)
+    (hstmt : (entriesFor n (attrsOf g false xs)).filterMap accessWord = [q])
+    (hprot : Attr.acc .prot ∉ entriesFor n (attrsOf g false xs)) :
+    ∃ k ∈ (runXI v g false true host xs).impls, k.name = n ∧ k.perm = q := by
+  obtain ⟨k0, hk0, hn0⟩ := implsFrom_mem g n xs (init false).perm hi
+  refine ⟨⟨n, q⟩, ?_, rfl, rfl⟩
+  simp only [runXI, List.mem_map]
+  refine ⟨implUpd true (attrsOf g false xs) k0, ⟨k0, hk0, rfl⟩, ?_⟩
+  simp only [implUpd, if_true, takeHost, implShortTakesIface, Bool.false_eq_true, if_false, hn0]
+  rw [applyAttrs_one n _ _ q hstmt hprot]
+
+/-- **The measured tables of the own-module bodies say what the theorems above use.**  The translator parses, with the
+    code under test, a module `[private] / w :: e1, e2 / interface bodies e1, e2 / contains / module subroutine e1 /
+    module procedure e2` for every default and access word and records the permission of each object after
+    `process_attribs`.  Long-form body and interface entries: the model's application step reproduces every triple
+    ("a recognised word overwrites"), every pair default x word is covered.  Short-form body: either nothing reaches
+    it (code as it is - the known defect) or the application step as well (repaired). -/
+theorem own_module_body_tables_sound (n : Str) :
+    (∀ x ∈ sepBodyTrans, applyAttrs applyWords n x.1 [(n, .acc x.2.1)] = x.2.2) ∧
+    (∀ x ∈ sepIfaceTrans, applyAttrs applyWords n x.1 [(n, .acc x.2.1)] = x.2.2) ∧
+    (∀ cur w : Perm, cur ≠ .prot → (cur, w) ∈ sepBodyTrans.map (fun x => (x.1, x.2.1))) ∧
+    (∀ cur w : Perm, cur ≠ .prot → (cur, w) ∈ sepShortTrans.map (fun x => (x.1, x.2.1))) ∧
+    ((∀ x ∈ sepShortTrans, x.2.2 = x.1) ∨
+     (∀ x ∈ sepShortTrans, applyAttrs applyWords n x.1 [(n, .acc x.2.1)] = x.2.2)) := by
+  refine ⟨?_, ?_, ?_, ?_, ?_⟩
+  · intro x hx; rw [applyAttrs_single]; revert x; decide
+  · intro x hx; rw [applyAttrs_single]; revert x; decide
+  · intro cur w h; cases cur <;> cases w <;> first | decide | exact absurd rfl h
+  · intro cur w h; cases cur <;> cases w <;> first | decide | exact absurd rfl h
+  · first
+    | (left; decide)
+    | (right; intro x hx; rw [applyAttrs_single]; revert x; decide)
+
+/-! ### round 6 - the visibility words on the generated module page -/
+
+/-- **The measured table of the page templates**: at every kind of place of the module page where a visibility word
+    stands - variable row, type heading, component row, binding row, generic-interface heading, procedure listed
+    under a generic interface (declared or referenced), procedure of a non-generic / abstract interface entry,
+    function / subroutine / module-procedure heading - the template prints the `permission` of **the entity itself**
+    (token probe of the translator on the real `mod_page.html`).  A template that prints the generic's visibility in
+    front of its specific procedures, or drops the word for one kind, changes `pageSrc` and breaks this theorem. -/
+theorem page_tables_sound : ∀ k : PKind, srcOf k = .own := by
+  intro k; cases k <;> decide
+
+/-- **What the module page prints is the entity's permission.**  For every unit result (any variant, any program):
+    every entity of the unit has its line on the page with its own permission as the visibility word; so has every
+    component and binding of every type, every procedure declared by an interface body of a generic interface, and
+    every `module procedure` body; and a `module procedure r` reference is printed with the permission of the
+    module procedure `r`. -/
+theorem module_page_shows_own_permission (unit : Perm) (o : XOut) :
+    (∀ e ∈ o.out.ents, ∃ l ∈ pageView unit o, l.owner = [] ∧ l.name = e.name ∧ l.shown = some e.perm) ∧
+    (∀ e ∈ o.out.ents, e.cat = .type → (∀ k ∈ e.comps, ⟨.comp, e.name, k.name, some k.perm⟩ ∈ pageView unit o) ∧
+      (∀ k ∈ e.binds, ⟨.bind, e.name, k.name, some k.perm⟩ ∈ pageView unit o)) ∧
+    (∀ e ∈ o.out.ents, e.cat = .iface → e.wrapper = false →
+      (∀ k ∈ e.procs, ⟨.member, e.name, k.name, some k.perm⟩ ∈ pageView unit o) ∧
+      (∀ r ∈ e.refs, ∀ p, procPerm o.out.ents r.name = some p → ⟨.ref, e.name, r.name, some p⟩ ∈ pageView unit o)) ∧
+    (∀ k ∈ o.impls, ⟨.mproc, [], k.name, some k.perm⟩ ∈ pageView unit o) := by
+  have hs : ∀ (k : PKind) (a b : Perm), shownPerm k a b = some a := by
+    intro k a b; simp [shownPerm, page_tables_sound k]
+  have hin : ∀ e ∈ o.out.ents, ∀ l ∈ entLines unit o.out.ents e, l ∈ pageView unit o := by
+    intro e he l hl
+    exact List.mem_append_left _ (List.mem_flatMap.2 ⟨e, he, hl⟩)
+  refine ⟨?_, ?_, ?_, ?_⟩
+  · intro e he
+    cases hc : e.cat with
+    | var =>
+      exact ⟨⟨.var, [], e.name, shownPerm .var e.perm unit⟩, hin e he _ (by simp [entLines, hc]), rfl, rfl, by simp [hs]⟩
+    | type =>
+      exact ⟨⟨.type, [], e.name, shownPerm .type e.perm unit⟩, hin e he _ (by simp [entLines, hc]), rfl, rfl, by simp [hs]⟩
+    | iface =>
+      by_cases hw : e.wrapper = true
+      · exact ⟨⟨.wrapper, [], e.name, shownPerm .wrapper e.perm unit⟩, hin e he _ (by simp [entLines, hc, hw]), rfl, rfl,
+          by simp [hs]⟩
+      · exact ⟨⟨.generic, [], e.name, shownPerm .generic e.perm unit⟩, hin e he _ (by simp [entLines, hc, hw]), rfl, rfl,
+          by simp [hs]⟩
+    | absIface =>
+      exact ⟨⟨.absIface, [], e.name, shownPerm .absIface e.perm unit⟩, hin e he _ (by simp [entLines, hc]), rfl, rfl, by simp [hs]⟩
+    | func =>
+      exact ⟨⟨.func, [], e.name, shownPerm .func e.perm unit⟩, hin e he _ (by simp [entLines, hc]), rfl, rfl, by simp [hs]⟩
+    | sub =>
+      exact ⟨⟨.sub, [], e.name, shownPerm .sub e.perm unit⟩, hin e he _ (by simp [entLines, hc]), rfl, rfl, by simp [hs]⟩
+  · intro e he hc
+    refine ⟨fun k hk => hin e he _ ?_, fun k hk => hin e he _ ?_⟩
+    · simp only [entLines, hc, List.mem_cons, List.mem_append, List.mem_map]
+      exact Or.inr (Or.inl ⟨k, hk, by simp [hs]⟩)
+    · simp only [entLines, hc, List.mem_cons, List.mem_append, List.mem_map]
+      exact Or.inr (Or.inr ⟨k, hk, by simp [hs]⟩)
+  · intro e he hc hw
+    refine ⟨fun k hk => hin e he _ ?_, fun r hr p hp => hin e he _ ?_⟩
+    · simp only [entLines, hc, hw, Bool.false_eq_true, if_false, List.mem_cons, List.mem_append, List.mem_map]
+      exact Or.inr (Or.inl ⟨k, hk, by simp [hs]⟩)
+    · simp only [entLines, hc, hw, Bool.false_eq_true, if_false, List.mem_cons, List.mem_append, List.mem_filterMap]
+      exact Or.inr (Or.inr ⟨r, hr, by simp [hp, hs]⟩)
+  · intro k hk
+    exact List.mem_append_right _ (List.mem_map.2 ⟨k, hk, by simp [hs]⟩)
+
+/-- **The module page shows Fortran's accessibility** (`access_correct_partial` carried to the second observation
+    point).  For every module `pre ++ d :: post` (written in abstract statements, no host, any variant, either value of
+    `implAttr`) and every entity `(c, n, attrs)` that `d` declares, under the hypotheses of `access_correct_partial`
+    (legal program, no PROTECTED, not in the class of the late-`private` defect): the page has a line for `n`, listed
+    by the module itself, whose visibility word is `fortranAccess`. -/
+theorem module_page_shows_fortran_access_partial (v : Variant) (g ia : Bool) (pre post : List Stmt) (d : Stmt) (c : Cat)
+    (n : Str) (attrs : List Attr)
+    (hx : (c, n, attrs) ∈ declares d)
+    (hnames : NamesOnce (pre ++ d :: post))
+    (hbare : BareLegal (pre ++ d :: post))
+    (hproc : isProc d = true → Stmt.contains ∈ pre)
+    (hone : OneAccessSpec (pre ++ d :: post) attrs n)
+    (hprot : hasProtected (pre ++ d :: post) attrs n = false)
+    (hlate : ¬ LateDefault (pre ++ d :: post) post attrs n) (unit : Perm) :
+    ∃ l ∈ pageView unit (runXI v g false ia [] (((pre ++ d :: post).map RStmt.plain).map XStmt.stmt)),
+      l.owner = [] ∧ l.name = n ∧ l.shown = some (fortranAccess (pre ++ d :: post) attrs n) := by
+  obtain ⟨e, he, _, hn, hp⟩ := access_correct_partial v pre post d c n attrs hx hnames hbare hproc hone hprot hlate
+  have hents : (runXI v g false ia [] (((pre ++ d :: post).map RStmt.plain).map XStmt.stmt)).out.ents
+      = (runUnit v false (pre ++ d :: post)).ents := by
+    simp only [runXI, runX, xstmts_map_stmt, runRaw, map_keyed_plain]
+    conv => rhs; rw [← List.map_id (runUnit v false (pre ++ d :: post)).ents]
+    apply List.map_congr_left
+    intro x _
+    unfold hostEnt
+    split
+    · simp [takeHost, implLongTakesIface]
+    · rfl
+  obtain ⟨l, hl, ho, hln, hs⟩ := (module_page_shows_own_permission unit
+    (runXI v g false ia [] (((pre ++ d :: post).map RStmt.plain).map XStmt.stmt))).1 e (by rw [hents]; exact he)
+  exact ⟨l, hl, ho, by rw [hln, hn], by rw [hs, hp]⟩
+
+/-- non-vacuity / worked instance: the page of `private` / `public :: v, g` / `integer :: v, w` / `interface g` with the
+    interface body `x` and the reference `s` / `contains` / `subroutine s`: the lines and their words -/
+example :
+    pageView .priv (runXI ⟨.afterLoop, true, true⟩ false false false []
+      [.stmt (.plain (.bare .priv)), .stmt (.plain (.access (.acc .pub) [chars! "v", chars! "g"])),
+       .stmt (.plain (.var [chars! "v", chars! "w"] [])),
+       .stmt (.plain (.iface .generic (chars! "g") [chars! "x"] [chars! "s"])),
+       .stmt (.plain .contains), .stmt (.plain (.proc false (chars! "s")))])
+    = [⟨.var, [], chars! "v", some .pub⟩, ⟨.var, [], chars! "w", some .priv⟩, ⟨.generic, [], chars! "g", some .pub⟩,
+       ⟨.member, chars! "g", chars! "x", some .priv⟩, ⟨.ref, chars! "g", chars! "s", some .priv⟩,
+       ⟨.sub, [], chars! "s", some .priv⟩] := by
   decide
 
 end Ford.C04
